@@ -4,3 +4,4 @@ pub mod mbc;
 pub mod timer;
 pub mod joypad;
 pub mod lcd;
+pub mod bus;
